@@ -97,27 +97,54 @@ def convert(t):
     else:
         raise SymPyException("Unable to convert " + str(t))
 
-def divisors(t):
-    """Divisors occurring in t. In HOL x / 0 = 0, while SymPy simplifies
-    x / x to 1 and treats 1 / x as undefined at 0."""
+def side_conditions(t):
+    """Conditions under which SymPy's reading of t agrees with HOL, as pairs
+    (kind, term). In HOL x / 0 = 0, sqrt x = -sqrt (-x) for negative x, log is
+    unspecified on non-positive numbers and real power follows the sign of the
+    base, while SymPy simplifies x / x to 1, sqrt(x)**2 and exp(log(x)) to x,
+    and works with complex values outside these domains."""
     res = []
     if t.is_comb():
         if t.is_divides():
-            res.append(t.arg)
+            res.append(('nonzero', t.arg))
+        elif t.is_comb('sqrt', 1):
+            res.append(('nonneg', t.arg))
+        elif t.is_comb('log', 1):
+            res.append(('pos', t.arg))
+        elif t.is_real_power():
+            try:
+                pos_exp = convert(t.arg).is_positive is True
+            except SymPyException:
+                pos_exp = False
+            res.append(('nonneg' if pos_exp else 'pos', t.arg1))
         for arg in t.args:
-            res.extend(divisors(arg))
+            res.extend(side_conditions(arg))
     return res
 
 def divisors_nonzero(goal, var=None, interval=None):
-    """Whether every divisor in goal is certainly nonzero (on the interval)."""
+    """Whether every side condition of goal certainly holds (on the interval):
+    divisors are nonzero, arguments of sqrt, log and bases of real powers are in
+    the domain on which SymPy and HOL agree."""
     try:
-        for d in divisors(goal):
+        for kind, d in side_conditions(goal):
             d = convert(d)
             if var is None:
-                if not (d.is_number and d.is_zero is False):
+                if not d.is_number:
                     return False
-            elif d.free_symbols - {var} or solveset_wrapper(d, var, interval) != sympy.EmptySet:
-                return False
+                if kind == 'nonzero' and d.is_zero is not False:
+                    return False
+                if kind == 'nonneg' and d.is_nonnegative is not True:
+                    return False
+                if kind == 'pos' and d.is_positive is not True:
+                    return False
+            else:
+                if d.free_symbols - {var}:
+                    return False
+                bad = {'nonzero': sympy.Eq(d, 0), 'nonneg': d < 0, 'pos': d <= 0}[kind]
+                if bad == True:
+                    return False
+                if bad != False and solveset_wrapper(bad, var, interval) != sympy.EmptySet:
+                    return False
     except (SymPyException, TypeError, NotImplementedError, RecursionError):
         return False
     return True
